@@ -174,6 +174,8 @@ val fold_right : ('a2 -> 'a1 -> 'a1) -> 'a1 -> 'a2 list -> 'a1
 
 val forallb : ('a1 -> bool) -> 'a1 list -> bool
 
+val filter : ('a1 -> bool) -> 'a1 list -> 'a1 list
+
 val repeat : 'a1 -> nat -> 'a1 list
 
 module Z :
@@ -638,5 +640,89 @@ val s_rows : value list list -> sexp
 val s_job : job_result -> sexp
 
 val run_run : sexp -> sexp
+
+type sentry = char list * (char list * bool)
+
+type sframe = sentry list
+
+type senv = sframe list
+
+val sget : char list -> sframe -> (char list * bool) option
+
+val sgets : char list -> senv -> (char list * bool) option
+
+val slookup : char list -> senv -> sframe -> (char list * bool) option
+
+val bound : char list -> senv -> sframe -> bool
+
+val clean_init : cexp option -> bool
+
+val entry_of_decl : decl -> sentry
+
+val entry_of_member : member -> sentry
+
+val loop_entry : char list -> sentry
+
+val member_env : program -> sframe
+
+val decls_stmt : stmt -> char list list
+
+val decls_block : block -> char list list
+
+val decls_stmts : stmts -> char list list
+
+val declared_names : program -> char list list
+
+val dups : char list list -> char list list
+
+val dup_errs : program -> char list list
+
+val sc_name : senv -> sframe -> char list -> char list list
+
+val sc_idents :
+  char list list -> senv -> sframe -> char list list -> char list list
+
+val sc_exp : char list list -> senv -> sframe -> cexp -> char list list
+
+val sc_decls :
+  char list list -> senv -> sframe -> sframe -> decl list -> char list list
+
+val sc_block :
+  char list list -> senv -> sframe -> sframe -> block -> char list list
+
+val scope_errs : program -> char list list
+
+val branch_errs : program -> char list list
+
+val is_int_type : char list -> bool
+
+val assoc_str : char list -> (char list * char list) list -> char list option
+
+val int_method : (char list * char list) list -> char list -> bool
+
+val ty_int : (char list * char list) list -> senv -> sframe -> cexp -> bool
+
+val ty_exp :
+  (char list * char list) list -> senv -> sframe -> cexp -> char list list
+
+val ty_target :
+  senv -> sframe -> char list -> (char list -> bool -> bool) -> char list ->
+  char list list
+
+val ty_cond : senv -> sframe -> cexp -> char list list
+
+val ty_decls :
+  (char list * char list) list -> senv -> sframe -> sframe -> decl list ->
+  char list list
+
+val ty_block :
+  (char list * char list) list -> senv -> sframe -> sframe -> block ->
+  char list list
+
+val type_errs : (char list * char list) list -> program -> char list list
+
+val d_pair_ss : sexp -> (char list * char list) option
+
+val run_check : sexp -> sexp
 
 val dispatch : char list -> sexp -> sexp
